@@ -6,6 +6,8 @@ import SkopsModel.Io.Trace
 import SkopsModel.Io.Visualize
 import SkopsModel.Io.Value
 import SkopsModel.Generated.Specs
+import SkopsModel.Generated.Skeletons
+import SkopsModel.Fs.Canon
 /-!
 Line-protocol driver: one JSON object per input line, one JSON object per output line.
 This file is glue (JSON decoding/encoding only); every decision is taken by the model functions.
@@ -464,6 +466,64 @@ def valEncode (j : Json) : Json :=
 
 end ValueGlue
 
+
+namespace FsGlue
+open Skops.Fs
+
+def jNat (j : Json) (k : String) (d : Nat) : Nat := (j.getObjValAs? Nat k).toOption.getD d
+def jBoolD (j : Json) (k : String) (d : Bool) : Bool := (j.getObjValAs? Bool k).toOption.getD d
+def decPath (j : Json) : Fs.Path := ⟨jBool j "abs", jStrs j "parts"⟩
+def decOptPath (j : Json) (k : String) : Option Fs.Path :=
+  match j.getObjVal? k with
+  | .ok Json.null => none
+  | .ok p => some (decPath p)
+  | .error _ => none
+def decBytes (j : Json) : Bytes := (asList j).map fun x => x.getNat?.toOption.getD 0
+def rpJ (p : RPath) : Json := strArr p
+def bytesJ (b : Bytes) : Json := Json.arr (b.map fun (n : Nat) => (n : Json)).toArray
+def opJ : Fs.Op → Json
+  | .mkdir d => Json.arr #["mkdir", rpJ d]
+  | .create p => Json.arr #["create", rpJ p]
+  | .append p b => Json.arr #["append", rpJ p, bytesJ b]
+  | .replace a b => Json.arr #["replace", rpJ a, rpJ b]
+  | .unlink p => Json.arr #["unlink", rpJ p]
+  | .rmtree d => Json.arr #["rmtree", rpJ d]
+def sigJ : Sig → Json
+  | .next => "next"
+  | .ret => "ret"
+  | .raised e => Json.str ("raised:" ++ e)
+def fsJ (fs : FS) : Json :=
+  Json.mkObj [("dirs", Json.arr (fs.dirs.map rpJ).toArray),
+              ("files", Json.arr (fs.files.map fun e => Json.arr #[rpJ e.1, bytesJ e.2]).toArray)]
+
+def fsRun (j : Json) : Json :=
+  let cfg : Cfg :=
+    { cwd := jStrs j "cwd", input := decPath ((j.getObjVal? "input").toOption.getD Json.null),
+      output := decOptPath j "output", inplace := jBool j "inplace", proto := jNat j "proto" 0, cur := jNat j "cur" 2,
+      loadable := jBoolD j "loadable" true, dumpable := jBoolD j "dumpable" true, untrusted := jStrs j "untrusted",
+      chunks := (jArr j "chunks").map decBytes, fresh := jStr j "fresh", sysTmp := jStrs j "sysTmp",
+      sysTmpSameFs := jBoolD j "sysTmpSameFs" true, sinkIsPath := jBoolD j "sinkIsPath" true }
+  let fs : FS :=
+    { dirs := (jArr j "dirs").map fun d => (asList d).map asStr,
+      files := (jArr j "files").map fun e => ((asList (jIdx e 0)).map asStr, decBytes (jIdx e 1)) }
+  let prog := jStr j "prog"
+  let r : World × Sig :=
+    if prog = "update" then run Skops.Generated.updateMain Skops.Generated.updateInner cfg fs
+    else if prog = "update-old" then run [] updateProgOld cfg fs
+    else if prog = "convert" then run Skops.Generated.convertMain Skops.Generated.convertInner cfg fs
+    else if prog = "dump" then execL cfg Skops.Generated.dumpBody { fs := fs, output := cfg.output }
+    else if prog = "dumps" then execL cfg Skops.Generated.dumpsBody { fs := fs, output := cfg.output }
+    else ({ fs := fs }, .raised "bad-prog")
+  let w := r.1
+  -- the states a crash can leave behind: one per prefix of the trace
+  let crash := (List.range (w.trace.length + 1)).map fun k => fsJ (applyAll fs (w.trace.take k))
+  Json.mkObj [("r", "fs"), ("sig", sigJ r.2), ("trace", Json.arr (w.trace.map opJ).toArray),
+              ("logs", strArr w.logs), ("fs", fsJ w.fs), ("handle", Json.arr (w.handle.map bytesJ).toArray),
+              ("returned", match w.returned with | some b => Json.arr (b.map bytesJ).toArray | none => Json.null),
+              ("crash", if jBool j "crashStates" then Json.arr crash.toArray else Json.null)]
+
+end FsGlue
+
 def badOp : Json := Json.mkObj [("r", "bad-op")]
 
 def handle (st : DSt) (j : Json) : DSt × Json :=
@@ -476,6 +536,7 @@ def handle (st : DSt) (j : Json) : DSt × Json :=
       ({ st with card := r.1 }, outJson r.2)
     | none => (st, badOp)
   else if op = "val.encode" then (st, valEncode j)
+  else if op = "fs.run" then (st, FsGlue.fsRun j)
   else if op = "io.load" then (st, ioLoad j)
   else if op = "io.visualize" then (st, ioVisualize j)
   else if op = "md.conv" then
